@@ -11,7 +11,8 @@
 EXTENDS Integers, Sequences, TLC, Json
 
 Statuses == {200, 429, 500, 503}
-HeaderClasses == {"absent", "negative", "zero", "small", "huge", "datepast", "datefuture", "garbage", "empty"}
+HeaderClasses == {"absent", "negative", "zero", "small", "huge", "datepast", "datefuture", "datefar", "garbage", "empty"}
+\* datefar: an HTTP date centuries ahead (beyond what a nanosecond counter reaches): a value, not representable as a duration
 AttemptClasses == {"0", "1", "small", "big", "max31"}          \* 0, 1, 2..8, 2^20.., 2^31-1
 WaitClasses == {"zero", "equal", "ms", "hours", "minzero"}     \* (min,max): 0/0, m/m, ms..s, hours, 0..max
 
@@ -20,7 +21,7 @@ PolicyOf(enabled, backoff, linear) ==
     IF ~enabled \/ ~backoff THEN "constant" ELSE IF linear THEN "linear" ELSE "exponential"
 
 \* does a Retry-After value replace the computed wait?
-HeaderIsValue(h) == h \in {"negative", "zero", "small", "huge", "datepast", "datefuture"}
+HeaderIsValue(h) == h \in {"negative", "zero", "small", "huge", "datepast", "datefuture", "datefar"}
 RetryAfterApplies(raEnabled, status, h) == raEnabled /\ status \in {429, 503} /\ HeaderIsValue(h)
 
 (***************************************************************************)
